@@ -210,6 +210,29 @@ func c18Run(c core.Case, env *core.Env) core.Result {
 			}
 			r.Count("derivations_compared", 1)
 			r.AddSet("path_lengths", fmt.Sprint(plen))
+			// the chain code buffer of a key object rewritten in place between two single-step derivations
+			if k%4 == 1 {
+				buf := append([]byte{}, chain...)
+				keyObj := libXKey(pub, buf, depth, 7, fp)
+				keyObj.ChainCode = buf
+				for rep := 0; rep < 2; rep++ {
+					if rep == 1 {
+						for i := range buf {
+							buf[i] ^= byte(0x5a + i)
+						}
+					}
+					want, _, rerr := ref.CKDPub(refXKey(keyObj), 5)
+					_, ch, err := ckd.DeriveChildKey(5, keyObj, tss.S256())
+					if rerr != nil || err != nil {
+						break
+					}
+					if ch.String() != want.String() {
+						r.Fail("ckd:chain-buffer-reuse", "a derivation after the key's chain code buffer was rewritten in place does not match BIP32 (first derivation right: %v)", rep == 1)
+						break
+					}
+					r.Count("chain_buffer_rewrites", 1)
+				}
+			}
 			// an application parses its account xpub once and keeps deriving from that object, serialising children as
 			// it goes: the parent must stay what it was and the next child must be right too
 			if k%3 == 0 && plen >= 1 {
@@ -308,6 +331,21 @@ func c18Run(c core.Case, env *core.Env) core.Result {
 			r.Fail("ckd:off-curve-panic", "off-curve parent panics: %s", msg)
 		} else if err == nil {
 			r.Fail("ckd:off-curve-accepted", "off-curve parent key accepted")
+		}
+		// the all-zero key (an unset or failed-to-decode parent): not a point of the curve
+		for what, bad := range map[string]*ckd.ExtendedKey{
+			"(0,0)":     libXKey(ref.Pt{X: big.NewInt(0), Y: big.NewInt(0)}, make([]byte, 32), 1, 0, []byte{1, 2, 3, 4}),
+			"(0,y)":     libXKey(ref.Pt{X: big.NewInt(0), Y: pub.Y}, make([]byte, 32), 1, 0, []byte{1, 2, 3, 4}),
+			"(x,0)":     libXKey(ref.Pt{X: pub.X, Y: big.NewInt(0)}, make([]byte, 32), 1, 0, []byte{1, 2, 3, 4}),
+			"(x,p-y)+1": libXKey(ref.Pt{X: pub.X, Y: new(big.Int).Add(new(big.Int).Sub(ref.SecpP, pub.Y), big1)}, make([]byte, 32), 1, 0, []byte{1, 2, 3, 4}),
+		} {
+			var err error
+			if p, msg, _ := guard(func() { _, _, err = ckd.DeriveChildKey(0, bad, tss.S256()) }); p {
+				r.Fail("ckd:off-curve-panic", "invalid parent %s panics: %s", what, msg)
+			} else if err == nil {
+				r.Fail("ckd:off-curve-accepted", "invalid parent key %s accepted", what)
+			}
+			r.Count("refusals_checked", 1)
 		}
 		r.Count("refusals_checked", 4)
 		r.NonTrivial = true
@@ -617,9 +655,33 @@ func c20Run(c core.Case, env *core.Env) core.Result {
 				continue
 			}
 			session := es.Copy().Subset(sel).(*ecdsaSet)
+			shallow := r.Obs["shallow_copy_adjustments"] <= r.Obs["deep_copy_adjustments"]
+			if !shallow {
+				r.Count("deep_copy_adjustments", 1)
+			}
+			var storedSnap []snap
+			if shallow {
+				// the copy an application typically makes: the structs by value and fresh slices, the point and integer
+				// objects shared with the stored key. What the helper is documented to replace (ECDSAPub, the BigXj
+				// entries) lives in the copy; the stored key must stay as it was.
+				session = &ecdsaSet{}
+				for _, i := range sel {
+					d := es.d[i]
+					d.BigXj = append([]*crypto.ECPoint{}, es.d[i].BigXj...)
+					session.d = append(session.d, d)
+				}
+				storedSnap = snapshotECDSA(es.d)
+			}
 			if err := ecdsasigning.UpdatePublicKeyAndAdjustBigXj(delta, session.d, &child.PublicKey, tss.S256()); err != nil {
 				r.Fail("history:kdd-adjust", "UpdatePublicKeyAndAdjustBigXj: %v", err)
 				return r
+			}
+			if shallow {
+				if d := diffECDSA(storedSnap, es.d); d != "" {
+					r.Fail("history:key-modified", "operation %d (sign-offset): adjusting a copy (own structs and slices, shared point objects) changed the stored key: %s", op, d)
+					return r
+				}
+				r.Count("shallow_copy_adjustments", 1)
 			}
 			adjusted := snapshotECDSA(session.d)
 			w := sim.ECDSASigning(env.Seed+int64(op), session.d, t, msg, sim.SignOpts{KDD: delta})
